@@ -198,9 +198,10 @@ def decidePeer (prev : Option (List Route)) (n : Nbr) (p : Option PeerSt) (s : O
   | some p =>
     -- `Peer._replaced_routes` (/repo F106): the definition being replaced may never have reached the RIB (a
     -- re-establishment is pending for it, or a reload is waiting for the loop top): the RIB still reflects the
-    -- one IT replaced, and the new definition inherits that link
+    -- one IT replaced — plus the routes the parser queued for the one being replaced — and the new definition
+    -- inherits both, oldest first
     let held := p.next.getD p.cur
-    let prev := match held.prev with | some x => some x | none => prev
+    let prev := match held.prev with | some x => some (x ++ prev.getD []) | none => prev
     let obj : NObj := { nbr := n, prev := prev }
     if !(p.cur.nbr.sameSession n) then
       ({ p with teardown := true, next := some obj }, none)                             -- reestablish
